@@ -396,14 +396,16 @@ def structured(n):
 
 # ------------------------------------------------------------------ programs
 
-def make_case(name, roots, kind):
+def make_case(name, roots, kind, single=False):
     c = Case()
     c.name, c.files, c.text, c.meta = name, {}, None, []
     size = sum(n.size() for n in roots)
     del PRELUDE[:]
     exprs = [n.expr(c.files, name) for n in roots]
     st = [Import(m) for m in ("ipv4", "std", "tls", "io", "dhcp", "dns", "netbios")] + list(PRELUDE)
-    if size <= CHUNK:
+    if size <= CHUNK or single:
+        # (single: a structure of 64 KiB or more in ONE datagram -- the UDP and IP length fields wrap, the bytes must
+        # all be there: the record is read to its end, not to the UDP length)
         st.append(Do(Call("ipv4::udp::unicast", SOCK(SRC), SOCK(DST), _x=exprs)))
     else:
         st.append(Let("b", Call("io::bufio", _x=exprs)))
@@ -454,8 +456,8 @@ def helper_cases(ctx, prefix=""):
     cases = []
     k = [0]
 
-    def add(roots, kind):
-        cases.append(make_case("%sh%d" % (prefix, k[0]), roots, kind))
+    def add(roots, kind, single=False):
+        cases.append(make_case("%sh%d" % (prefix, k[0]), roots, kind, single=single))
         k[0] += 1
 
     def framers(kids):
@@ -508,6 +510,10 @@ def helper_cases(ctx, prefix=""):
     add([Node("certs", certs=[rbytes(r, 65535)])], "certs-big")
     add([Node("certs", certs=[rbytes(r, 65536)])], "certs-big")                         # 24-bit length with a non-zero high byte
     add([Node("certs", certs=[rbytes(r, 65536), rbytes(r, 300), b""])], "certs-big")
+    # structures of 64 KiB and more carried by one datagram
+    add([Node("len", [L(rbytes(r, 66000))], k=4)], "one-datagram-over-64k", single=True)
+    add([Node("certs", certs=[rbytes(r, 66000)])], "one-datagram-over-64k", single=True)
+    add([Node("len", [L(rbytes(r, 65535))], k=2)], "one-datagram-over-64k", single=True)
     if ctx.thorough:
         add([Node("certs", certs=[rbytes(r, 70000), rbytes(r, 66000)])], "certs-big")
         add([Node("rec", [Node("certs", certs=[rbytes(r, 65535 - 10)])])], "certs-big")
